@@ -496,7 +496,7 @@ esl_rsq_CShuffleKmers(ESL_RANDOMNESS *r, const char *s, int K, char *shuffled)
   int   status;
 
   if (shuffled != s) strcpy(shuffled, s);
-  ESL_ALLOC(swap, sizeof(char) * K);
+  if (W > 1) ESL_ALLOC(swap, sizeof(char) * K);  /* no scratch space unless there are words to swap: K is then <= L/2 (a huge K, e.g. esl-shuffle -k 2147483647, used to fail here) */
   while (W > 1) 
     {	/* use memmove, not strncpy or memcpy, because i==W-1 creates an overlap case */
       i = esl_rnd_Roll(r, W);	                                                 /* pick a word          */
@@ -1084,7 +1084,7 @@ esl_rsq_XShuffleKmers(ESL_RANDOMNESS *r, const ESL_DSQ *dsq, int L, int K, ESL_D
   int   status;
 
   if (shuffled != dsq) esl_abc_dsqcpy(dsq, L, shuffled);
-  ESL_ALLOC(swap, sizeof(char) * K);
+  if (W > 1) ESL_ALLOC(swap, sizeof(char) * K);  /* as in esl_rsq_CShuffleKmers(): scratch space only when there are words to swap */
   while (W > 1) 
     {				/* use memmove, not memcpy, because i==W-1 is an overlap case */
       i = esl_rnd_Roll(r, W);	                                                 /* pick a word          */
